@@ -195,6 +195,9 @@ def rule_typevalid(ctx):
     # built-in string shapes: finish refuses !valid_type and lower-cases (details in C13); PackageType names valid (C15)
     from . import C13
     C13.sibling_obligations(ctx, facts, rule="TYPE-VALID")
+    # .. and what they validate with is the alphabet the property names ("made only of letters, digits, '.', '+' and '-'")
+    from .common import type_alphabet_obligation
+    type_alphabet_obligation(ctx, facts, "TYPE-VALID")
     if "package_type::PackageType::name" in facts.bodies:
         from . import C15
         C15.name_table_obligations(ctx, facts, rule="TYPE-VALID")
